@@ -533,6 +533,11 @@ impl<Aux> Vm<'_, Aux> {
                         .map_err(|_| ExecutionErrorPayload::Stackoverflow)
                         .map_err(|err| {
                             // free the object on Stackoverflow
+                            // it is the most recently registered object, forget it first so the
+                            // runtime does not free it a second time
+                            if self.runtime_data.object_list.last() == Some(&obj.0) {
+                                self.runtime_data.object_list.pop();
+                            }
                             self.runtime_data.free_object(obj.0);
                             payload_to_error(err, *instr_ptr, &self.runtime_data.call_stack)
                         })?;
@@ -555,6 +560,11 @@ impl<Aux> Vm<'_, Aux> {
                         .map_err(|_| ExecutionErrorPayload::Stackoverflow)
                         .map_err(|err| {
                             // free the object on Stackoverflow
+                            // it is the most recently registered object, forget it first so the
+                            // runtime does not free it a second time
+                            if self.runtime_data.object_list.last() == Some(&obj.0) {
+                                self.runtime_data.object_list.pop();
+                            }
                             self.runtime_data.free_object(obj.0);
                             payload_to_error(err, *instr_ptr, &self.runtime_data.call_stack)
                         })?;
@@ -577,6 +587,11 @@ impl<Aux> Vm<'_, Aux> {
                         .map_err(|_| ExecutionErrorPayload::Stackoverflow)
                         .map_err(|err| {
                             // free the object on Stackoverflow
+                            // it is the most recently registered object, forget it first so the
+                            // runtime does not free it a second time
+                            if self.runtime_data.object_list.last() == Some(&obj.0) {
+                                self.runtime_data.object_list.pop();
+                            }
                             self.runtime_data.free_object(obj.0);
                             payload_to_error(err, *instr_ptr, &self.runtime_data.call_stack)
                         })?;
